@@ -549,4 +549,439 @@ theorem sIn_vsetStore {σ : Store} (h : SIn T σ) {id : Nat} {cell : VecCell} (h
 
 end store
 
+/-! ## the steps of the evaluator that are not part of the mutual block -/
+
+section steps
+variable {T : List RPos}
+open Eval Prim
+
+theorem evalPrim_vIn {p : Prim} {v : Value} (h : evalPrim p = .ok v) : VIn T v := by
+  cases p <;> simp [evalPrim] at h <;> try (subst h; simp)
+  rename_i n d
+  cases hq : Num.exactRatio n d <;> simp [hq, Except.map] at h
+  subst h; simp
+
+theorem lift_err {α} {σ σ' : Store} {r : Except Err α} {k e} (h : lift σ r k = (.error e, σ')) : e.2 = none := by
+  unfold lift at h; split at h <;> simp [ok, err] at h
+  obtain ⟨rfl, -⟩ := h; rfl
+theorem num1_err {σ σ' : Store} {args b f e} (h : num1 σ args b f = (.error e, σ')) : e.2 = none := by
+  unfold num1 at h; repeat' split at h
+  all_goals simp [ok, err, missing] at h
+  all_goals (obtain ⟨rfl, -⟩ := h; rfl)
+theorem num2_err {σ σ' : Store} {args b f e} (h : num2 σ args b f = (.error e, σ')) : e.2 = none := by
+  unfold num2 at h; repeat' split at h
+  all_goals simp [ok, err, missing] at h
+  all_goals (obtain ⟨rfl, -⟩ := h; rfl)
+
+/-- no native procedure reports a located error -/
+theorem applyPure_err {σ σ' : Store} {b : Builtin} {args : List Value} {e}
+    (h : applyPure σ b args = (.error e, σ')) : e.2 = none := by
+  cases b <;> simp only [applyPure, realFn, realFn2] at h
+  all_goals first
+    | exact lift_err h
+    | exact num1_err h
+    | exact num2_err h
+    | (repeat' split at h
+       all_goals simp [ok, err, missing] at h
+       all_goals (try (obtain ⟨rfl, -⟩ := h; rfl)))
+
+/-- the native procedures: results and stored items are parts of the arguments or of the store -/
+theorem applyPure_in {σ : Store} {b : Builtin} {args : List Value} {r σ'}
+    (h : applyPure σ b args = (r, σ')) (hσ : SIn T σ) (ha : ∀ a ∈ args, VIn T a) :
+    SIn T σ' ∧ (∀ v, r = .ok v → VIn T v) ∧ (∀ e, r = .error e → e.2 = none) := by
+  refine ⟨?_, ?_, fun e he => applyPure_err (he ▸ h)⟩
+  · by_cases h1 : b = .vector
+    · subst h1
+      rw [applyPure_vector] at h; cases h
+      exact sIn_allocVec hσ _ ha
+    by_cases h2 : b = .makeVector
+    · subst h2
+      rcases applyPure_makeVector_shape h with ⟨rfl, -⟩ | ⟨n, fill, rest, rfl, _, rfl, rfl⟩
+      · exact hσ
+      · refine sIn_allocVec hσ _ ?_
+        intro v hv
+        rw [List.mem_replicate] at hv
+        rw [hv.2]; exact ha _ (by simp)
+    by_cases h3 : b = .vectorSet
+    · subst h3
+      rcases applyPure_vectorSet_shape h with ⟨rfl, -⟩ | ⟨id, n, obj, rest, cell, rfl, hc, _, _, _, rfl, rfl⟩
+      · exact hσ
+      · exact sIn_vsetStore hσ hc _ (ha _ (by simp))
+    have hf := applyPure_frames σ b args
+    have hv := applyPure_vecs σ b args h1 h2 h3
+    rw [h] at hf hv
+    exact hσ.of_eq hf hv
+  · intro v hv
+    subst hv
+    have h' : (applyPure σ b args).1 = .ok v := by rw [h]
+    by_cases h1 : b = .vector
+    · subst h1; rw [applyPure_vector] at h'; cases h'; simp
+    by_cases h2 : b = .makeVector
+    · subst h2
+      rcases applyPure_makeVector_shape h with ⟨-, e, he⟩ | ⟨n, fill, rest, -, -, hr, -⟩
+      · cases he
+      · cases hr; simp
+    cases b <;> simp at h1 h2 <;> simp only [applyPure] at h'
+    all_goals first
+      | (obtain ⟨a, rfl⟩ := lift_fst h'; simp; done)
+      | (obtain ⟨a, rfl⟩ := num1_fst h'; simp; done)
+      | (obtain ⟨a, rfl⟩ := num2_fst h'; simp; done)
+      | (obtain ⟨a, rfl⟩ := realFn_fst h'; simp; done)
+      | (obtain ⟨a, rfl⟩ := realFn2_fst h'; simp; done)
+      | skip
+    all_goals (repeat' split at h')
+    all_goals (simp [ok, err, missing] at h')
+    all_goals (try subst h')
+    all_goals (try (simp; done))
+    · have := ha _ (List.mem_cons_self ..); simp only [vIn_pair] at this; exact this.1
+    · have := ha _ (List.mem_cons_self ..); simp only [vIn_pair] at this; exact this.2
+    · simp only [vIn_pair]; exact ⟨ha _ (by simp), ha _ (by simp)⟩
+    · rename_i cell hc _ _ x hx
+      exact hσ.cell _ cell hc x (List.mem_of_getElem? hx)
+    · exact ha _ (by simp)
+
+/-- what a literal yields: a value without code, no located error, nothing but code-free vectors
+added to the store -/
+def LitIn (T : List RPos) (σ : Store) {α} (P : α → Prop) (res : Res α) : Prop :=
+  (SIn T σ → SIn T res.2) ∧ (∀ v, res.1 = .ok v → P v) ∧ (∀ e, res.1 = .error e → e.2 = none)
+
+mutual
+theorem readLiteral_in : ∀ (d : Datum) (σ : Store),
+    LitIn T σ (fun v => v.rlocs = []) (readLiteral σ d)
+  | .prim p _, σ => by
+    rw [readLiteral]
+    split
+    · rename_i v hp
+      refine ⟨id, fun v' hv => ?_, by simp⟩
+      cases hv
+      have := evalPrim_vIn (T := []) hp
+      simpa [VIn] using this
+    · exact ⟨id, by simp, by simp⟩
+  | .sym s _, σ => by rw [readLiteral]; exact ⟨id, by simp [Value.rlocs], by simp⟩
+  | .nil _, σ => by rw [readLiteral]; exact ⟨id, by simp [Value.rlocs], by simp⟩
+  | .pair a d _, σ => by
+    rw [readLiteral]
+    have ha := readLiteral_in a σ
+    split
+    · rename_i e σ₁ h₁
+      rw [h₁] at ha
+      exact ⟨ha.1, by simp, fun e' he => by cases he; exact ha.2.2 e rfl⟩
+    · rename_i va σ₁ h₁
+      rw [h₁] at ha
+      have hd := readLiteral_in d σ₁
+      split
+      · rename_i e σ₂ h₂
+        rw [h₂] at hd
+        exact ⟨fun h => hd.1 (ha.1 h), by simp, fun e' he => by cases he; exact hd.2.2 e rfl⟩
+      · rename_i vd σ₂ h₂
+        rw [h₂] at hd
+        refine ⟨fun h => hd.1 (ha.1 h), fun v hv => ?_, by simp⟩
+        cases hv
+        simp [Value.rlocs, ha.2.1 va rfl, hd.2.1 vd rfl]
+  | .vec xs _, σ => by
+    rw [readLiteral]
+    have hx := readLiterals_in xs σ
+    split
+    · rename_i e σ₁ h₁
+      rw [h₁] at hx
+      exact ⟨hx.1, by simp, fun e' he => by cases he; exact hx.2.2 e rfl⟩
+    · rename_i vs σ₁ h₁
+      rw [h₁] at hx
+      refine ⟨fun h => sIn_allocVec (hx.1 h) false (fun v hv => ?_), fun v hv => ?_, by simp⟩
+      · exact vIn_atom (hx.2.1 vs rfl v hv)
+      · cases hv; rfl
+theorem readLiterals_in : ∀ (ds : List Datum) (σ : Store),
+    LitIn T σ (fun vs => ∀ v ∈ vs, v.rlocs = []) (readLiterals σ ds)
+  | [], σ => by rw [readLiterals]; exact ⟨id, by simp, by simp⟩
+  | x :: xs, σ => by
+    rw [readLiterals]
+    have ha := readLiteral_in x σ
+    split
+    · rename_i e σ₁ h₁
+      rw [h₁] at ha
+      exact ⟨ha.1, by simp, fun e' he => by cases he; exact ha.2.2 e rfl⟩
+    · rename_i va σ₁ h₁
+      rw [h₁] at ha
+      have hd := readLiterals_in xs σ₁
+      split
+      · rename_i e σ₂ h₂
+        rw [h₂] at hd
+        exact ⟨fun h => hd.1 (ha.1 h), by simp, fun e' he => by cases he; exact hd.2.2 e rfl⟩
+      · rename_i vd σ₂ h₂
+        rw [h₂] at hd
+        refine ⟨fun h => hd.1 (ha.1 h), fun vs hv v hm => ?_, by simp⟩
+        cases hv
+        simp only [List.mem_cons] at hm
+        rcases hm with rfl | hm
+        · exact ha.2.1 _ rfl
+        · exact hd.2.1 vd rfl v hm
+end
+
+theorem readLiteral_post {σ : Store} {d : Datum} {r σ'} (h : readLiteral σ d = (r, σ')) (hσ : SIn T σ) :
+    SIn T σ' ∧ (∀ v, r = .ok v → VIn T v) ∧ (∀ e, r = .error e → e.2 = none) := by
+  have := readLiteral_in (T := T) d σ
+  rw [h] at this
+  exact ⟨this.1 hσ, fun v hv => vIn_atom (this.2.1 v hv), this.2.2⟩
+
+theorem bindFixed_in : ∀ (names : List String) (args : List Value) (σ : Store) (ρ : Nat) {r σ'},
+    bindFixed σ ρ names args = (r, σ') → SIn T σ → (∀ a ∈ args, VIn T a) →
+    SIn T σ' ∧ ∀ rest, r = .ok rest → ∀ a ∈ rest, VIn T a
+  | [], args, σ, ρ, r, σ', h, hσ, ha => by
+    rw [bindFixed] at h; cases h; exact ⟨hσ, fun rest hr => by cases hr; exact ha⟩
+  | _ :: _, [], σ, ρ, r, σ', h, hσ, ha => by
+    rw [bindFixed] at h; cases h; exact ⟨hσ, by simp⟩
+  | f :: fs, a :: as, σ, ρ, r, σ', h, hσ, ha => by
+    rw [bindFixed] at h
+    exact bindFixed_in fs as _ ρ h (sIn_define hσ ρ f (ha a (by simp))) (fun x hx => ha x (by simp [hx]))
+
+theorem spreadApply_in {args args' : List Value} {f : Value} (h : spreadApply args = .ok (f, args'))
+    (ha : ∀ a ∈ args, VIn T a) : VIn T f ∧ ∀ a ∈ args', VIn T a := by
+  unfold spreadApply at h
+  split at h
+  · cases h
+  · rename_i f' rest
+    split at h
+    · cases h
+    · split at h
+      · cases h
+        exact ⟨ha _ (by simp), by simp⟩
+      · rename_i last hl
+        have hlast : last ∈ rest := List.mem_of_getLast? hl
+        have hal : VIn T last := ha _ (by simp [hlast])
+        split at h
+        · cases h
+          refine ⟨ha _ (by simp), fun a hm => ?_⟩
+          rcases List.mem_append.1 hm with hm | hm
+          · exact ha _ (List.mem_cons_of_mem _ (List.dropLast_subset _ hm))
+          · exact vIn_elems hal a hm
+        · cases h
+          refine ⟨ha _ (by simp), fun a hm => ?_⟩
+          rcases List.mem_append.1 hm with hm | hm
+          · exact ha _ (List.mem_cons_of_mem _ (List.dropLast_subset _ hm))
+          · exact vIn_elems hal a hm
+        · cases h
+
+end steps
+
+/-! ## the evaluator: induction on fuel -/
+
+namespace EvalLoc
+open Eval
+variable {T : List RPos}
+
+/-- what a located error of the evaluator is: an unbound variable at the position of an identifier,
+or a non-procedure at the position of an operator -/
+def ErrOK (T : List RPos) (e : SErr) : Prop :=
+  ∀ l, e.2 = some l →
+    (e.1 = .unbound ∧ (Role.ident, l) ∈ T) ∨ (e.1 = .nonProcedure ∧ (Role.operator, l) ∈ T)
+
+theorem errOK_none (k : Err) : ErrOK T (k, none) := by intro l h; cases h
+theorem errOK_of_none {e : SErr} (h : e.2 = none) : ErrOK T e := by intro l h'; rw [h] at h'; cases h'
+theorem errOK_unbound {loc : Loc} (h : loc.as .ident ⊆ T) : ErrOK T (.unbound, loc) := by
+  intro l hl; simp only at hl; subst hl
+  exact Or.inl ⟨rfl, h (by simp [Loc.as])⟩
+theorem errOK_nonproc {loc : Loc} (h : loc.as .operator ⊆ T) : ErrOK T (.nonProcedure, loc) := by
+  intro l hl; simp only at hl; subst hl
+  exact Or.inr ⟨rfl, h (by simp [Loc.as])⟩
+
+/-- the code a tail result carries -/
+def TIn (T : List RPos) : TailRes → Prop
+  | .value v => VIn T v
+  | .tailCall f args _ => f.loc.as .operator ⊆ T ∧ f.rlocs ⊆ T ∧ Expr.rlocsList args ⊆ T
+
+theorem tIn_value {v} : TIn T (.value v) ↔ VIn T v := Iff.rfl
+theorem tIn_tailCall {f args env} : TIn T (.tailCall f args env) ↔
+    f.loc.as .operator ⊆ T ∧ f.rlocs ⊆ T ∧ Expr.rlocsList args ⊆ T := Iff.rfl
+
+/-! sub-expressions -/
+theorem sym_in {s l} : (Expr.sym s l).rlocs ⊆ T ↔ l.as .node ⊆ T ∧ l.as .ident ⊆ T := by
+  simp [Expr.rlocs]
+theorem assign_in {n e l} : (Expr.assign n e l).rlocs ⊆ T ↔ l.as .node ⊆ T ∧ l.as .ident ⊆ T ∧ e.rlocs ⊆ T := by
+  simp [Expr.rlocs]
+theorem lambda_in {lam l} : (Expr.lambda lam l).rlocs ⊆ T ↔ l.as .node ⊆ T ∧ lam.rlocs ⊆ T := by
+  simp [Expr.rlocs]
+theorem call_in {f args l} : (Expr.call f args l).rlocs ⊆ T ↔
+    l.as .node ⊆ T ∧ f.loc.as .operator ⊆ T ∧ f.rlocs ⊆ T ∧ Expr.rlocsList args ⊆ T := by
+  simp [Expr.rlocs]
+theorem cond_in {t c a l} : (Expr.cond t c a l).rlocs ⊆ T ↔
+    l.as .node ⊆ T ∧ t.rlocs ⊆ T ∧ c.rlocs ⊆ T ∧ Expr.rlocsOpt a ⊆ T := by
+  simp [Expr.rlocs]
+theorem opt_some_in {e} : Expr.rlocsOpt (some e) ⊆ T ↔ e.rlocs ⊆ T := by simp [Expr.rlocsOpt]
+theorem list_cons_in {e es} : Expr.rlocsList (e :: es) ⊆ T ↔ e.rlocs ⊆ T ∧ Expr.rlocsList es ⊆ T := by
+  simp [Expr.rlocsList]
+theorem lam_in {lam : Lambda} : lam.rlocs ⊆ T ↔ Def.rlocsList lam.defs ⊆ T ∧ Expr.rlocsList lam.body ⊆ T := by
+  cases lam; simp [Lambda.rlocs, Lambda.defs, Lambda.body]
+theorem defs_cons_in {n e l ds} : Def.rlocsList (Def.mk n e l :: ds) ⊆ T ↔
+    l.as .node ⊆ T ∧ e.rlocs ⊆ T ∧ Def.rlocsList ds ⊆ T := by
+  simp [Def.rlocsList, Def.rlocs]
+
+/-- the invariant for all functions of the mutual block at one amount of fuel -/
+structure LocAt (T : List RPos) (fuel : Nat) : Prop where
+  expr : ∀ σ ρ e r σ', evalExpr fuel σ ρ e = (r, σ') → SIn T σ → e.rlocs ⊆ T →
+    SIn T σ' ∧ (∀ v, r = .ok v → VIn T v) ∧ (∀ er, r = .error er → ErrOK T er)
+  args : ∀ σ ρ es r σ', evalArgs fuel σ ρ es = (r, σ') → SIn T σ → Expr.rlocsList es ⊆ T →
+    SIn T σ' ∧ (∀ vs, r = .ok vs → ∀ v ∈ vs, VIn T v) ∧ (∀ er, r = .error er → ErrOK T er)
+  proc : ∀ σ p as env r σ', applyProcedure fuel σ p as env = (r, σ') → SIn T σ → VIn T p →
+    (∀ a ∈ as, VIn T a) →
+    SIn T σ' ∧ (∀ v, r = .ok v → VIn T v) ∧ (∀ er, r = .error er → ErrOK T er)
+  loop : ∀ σ p as env r σ', applyLoop fuel σ p as env = (r, σ') → SIn T σ → VIn T p →
+    (∀ a ∈ as, VIn T a) →
+    SIn T σ' ∧ (∀ v, r = .ok v → VIn T v) ∧ (∀ er, r = .error er → ErrOK T er)
+  scheme : ∀ σ lam cenv as r σ', applyScheme fuel σ lam cenv as = (r, σ') → SIn T σ → lam.rlocs ⊆ T →
+    (∀ a ∈ as, VIn T a) →
+    SIn T σ' ∧ (∀ t, r = .ok t → TIn T t) ∧ (∀ er, r = .error er → ErrOK T er)
+  defs : ∀ σ ρ ds r σ', evalDefs fuel σ ρ ds = (r, σ') → SIn T σ → Def.rlocsList ds ⊆ T →
+    SIn T σ' ∧ (∀ er, r = .error er → ErrOK T er)
+  body : ∀ σ ρ es r σ', evalBody fuel σ ρ es = (r, σ') → SIn T σ → Expr.rlocsList es ⊆ T →
+    SIn T σ' ∧ (∀ t, r = .ok t → TIn T t) ∧ (∀ er, r = .error er → ErrOK T er)
+  tail : ∀ σ ρ e r σ', evalTail fuel σ ρ e = (r, σ') → SIn T σ → e.rlocs ⊆ T →
+    SIn T σ' ∧ (∀ t, r = .ok t → TIn T t) ∧ (∀ er, r = .error er → ErrOK T er)
+
+theorem locAt_zero : LocAt T 0 := by
+  constructor <;> intros <;>
+    simp_all [evalExpr, evalArgs, applyProcedure, applyLoop, applyScheme, evalDefs, evalBody, evalTail] <;>
+    (have := @errOK_none T; grind)
+
+/-! forward facts -/
+theorem fw_lit {σ d r σ'} (h : readLiteral σ d = (r, σ')) (hσ : SIn T σ) :
+    SIn T σ' ∧ (∀ v, r = .ok v → VIn T v) ∧ (∀ e, r = .error e → ErrOK T e) := by
+  have := readLiteral_post h hσ
+  exact ⟨this.1, this.2.1, fun e he => errOK_of_none (this.2.2 e he)⟩
+theorem fw_prim {σ b a r σ'} (h : Prim.applyPure σ b a = (r, σ')) (hσ : SIn T σ) (ha : ∀ x ∈ a, VIn T x) :
+    SIn T σ' ∧ (∀ v, r = .ok v → VIn T v) ∧ (∀ e, r = .error e → ErrOK T e) := by
+  have := applyPure_in h hσ ha
+  exact ⟨this.1, this.2.1, fun e he => errOK_of_none (this.2.2 e he)⟩
+theorem fw_set {σ : Store} {ρ x v b σ'} (h : σ.set ρ x v = (b, σ')) (hσ : SIn T σ) (hv : VIn T v) :
+    SIn T σ' := sIn_set h hσ hv
+theorem fw_bind {σ ρ n a r σ'} (h : bindFixed σ ρ n a = (r, σ')) (hσ : SIn T σ) (ha : ∀ x ∈ a, VIn T x) :
+    SIn T σ' ∧ ∀ rest, r = .ok rest → VIn T (Value.ofList rest) := by
+  have := bindFixed_in n a σ ρ h hσ ha
+  exact ⟨this.1, fun rest hr => vIn_ofList (this.2 rest hr)⟩
+theorem fw_spread {args args' : List Value} {f : Value} (h : spreadApply args = .ok (f, args'))
+    (ha : ∀ a ∈ args, VIn T a) : VIn T f ∧ ∀ a ∈ args', VIn T a := spreadApply_in h ha
+theorem fw_cons {v : Value} {vs : List Value} (hv : VIn T v) (hvs : ∀ x ∈ vs, VIn T x) :
+    ∀ x ∈ v :: vs, VIn T x := by
+  intro x hx; rcases List.mem_cons.1 hx with rfl | hx
+  · exact hv
+  · exact hvs x hx
+theorem fw_nil : ∀ x ∈ ([] : List Value), VIn T x := by simp
+
+theorem locAt_succ {fuel : Nat} (ih : LocAt T fuel) : LocAt T (fuel + 1) := by
+  constructor
+  · intro σ ρ e r σ' h hσ he
+    cases e <;> simp only [evalExpr] at h
+    case prim =>
+      have := @evalPrim_vIn T; have := @errOK_none T
+      repeat' split at h
+      all_goals grind
+    case datum => have := @fw_lit T; grind
+    case quote => have := @fw_lit T; grind
+    case call =>
+      rw [call_in] at he
+      have := ih.expr; have := ih.args; have := ih.proc
+      have := @errOK_none T; have := @errOK_nonproc T
+      repeat' split at h
+      all_goals grind
+    case assign =>
+      rw [assign_in] at he
+      have := ih.expr; have := @fw_set T; have := @vIn_void T; have := @errOK_unbound T
+      repeat' split at h
+      all_goals grind
+    case lambda => rw [lambda_in] at he; have := @vIn_closure T; grind
+    case cond =>
+      rw [cond_in] at he
+      have := ih.expr; have := @vIn_void T; have := @opt_some_in T
+      repeat' split at h
+      all_goals grind
+    case sym =>
+      rw [sym_in] at he
+      have := @sIn_lookup T; have := @errOK_unbound T
+      repeat' split at h
+      all_goals grind
+  · intro σ ρ es r σ' h hσ he
+    cases es <;> simp only [evalArgs] at h
+    · have := @fw_nil T; grind
+    · rw [list_cons_in] at he
+      have := ih.expr; have := ih.args; have := @fw_cons T
+      repeat' split at h
+      all_goals grind
+  · intro σ p as env r σ' h hσ hp ha
+    rw [applyProcedure] at h
+    split at h
+    rename_i heq
+    have hl := ih.loop _ _ _ _ _ _ heq (sIn_enter.2 hσ) hp ha
+    simp only [Prod.mk.injEq] at h; obtain ⟨rfl, rfl⟩ := h
+    exact ⟨sIn_leave.2 hl.1, hl.2⟩
+  · intro σ p as env r σ' h hσ hp ha
+    rw [applyLoop.eq_def] at h
+    dsimp only at h
+    have := ih.expr; have := ih.args; have := ih.loop; have := ih.scheme
+    have := @fw_prim T; have := @fw_spread T
+    have := @vIn_closure T; have := @tIn_value T; have := @tIn_tailCall T
+    have := @errOK_none T; have := @errOK_nonproc T
+    repeat' split at h
+    all_goals grind
+  · intro σ lam cenv as r σ' h hσ hl ha
+    simp only [applyScheme] at h
+    rw [lam_in] at hl
+    have := ih.defs; have := ih.body
+    have := @fw_bind T; have := @sIn_newFrame T; have := @sIn_define T; have := @errOK_none T
+    revert h
+    cases lam.formals.rest <;> intro h <;> dsimp only at h
+    all_goals (repeat' split at h)
+    all_goals grind
+  · intro σ ρ ds r σ' h hσ hd
+    rcases ds with _ | ⟨⟨name, e, l⟩, ds⟩ <;> simp only [evalDefs] at h
+    · grind
+    · rw [defs_cons_in] at hd
+      have := ih.expr; have := ih.defs; have := @sIn_define T
+      repeat' split at h
+      all_goals grind
+  · intro σ ρ es r σ' h hσ he
+    rcases es with _ | ⟨e, _ | ⟨e', es⟩⟩ <;> simp only [evalBody] at h
+    · have := @errOK_none T; grind
+    · rw [list_cons_in] at he; have := ih.tail; grind
+    · rw [list_cons_in] at he
+      have := ih.expr; have := ih.body
+      repeat' split at h
+      all_goals grind
+  · intro σ ρ e r σ' h hσ he
+    have := ih.expr; have := ih.tail
+    have := @vIn_void T; have := @tIn_value T; have := @tIn_tailCall T; have := @opt_some_in T
+    cases e <;> simp only [evalTail] at h
+    case call => rw [call_in] at he; grind
+    case cond =>
+      rw [cond_in] at he
+      repeat' split at h
+      all_goals grind
+    all_goals
+      (split at h
+       · rename_i er σ1 heq; cases h
+         have := ih.expr _ _ _ _ _ heq hσ he
+         exact ⟨this.1, by simp, fun er' h' => by cases h'; exact this.2.2 _ rfl⟩
+       · rename_i v σ1 heq; cases h
+         have := ih.expr _ _ _ _ _ heq hσ he
+         exact ⟨this.1, fun t ht => by cases ht; exact this.2.1 _ rfl, by simp⟩)
+
+theorem locAt : ∀ fuel, LocAt T fuel
+  | 0 => locAt_zero
+  | fuel + 1 => locAt_succ (locAt fuel)
+
+/-- the evaluator on an expression, relative to the positions of the store and the expression -/
+theorem evalExpr_post {n σ ρ e r σ'} (h : evalExpr n σ ρ e = (r, σ')) :
+    SIn (σ.rlocs ++ e.rlocs) σ' ∧ (∀ v, r = .ok v → VIn (σ.rlocs ++ e.rlocs) v) ∧
+      (∀ er, r = .error er → ErrOK (σ.rlocs ++ e.rlocs) er) :=
+  (locAt n).expr σ ρ e r σ' h (sIn_iff.2 (List.subset_append_left _ _)) (List.subset_append_right _ _)
+
+end EvalLoc
+
+theorem mem_unrole {l : Pos} {L : List RPos} : l ∈ unrole L ↔ ∃ r, (r, l) ∈ L := by
+  simp [unrole]
+
+theorem unrole_append (a b : List RPos) : unrole (a ++ b) = unrole a ++ unrole b := by
+  simp [unrole]
+
+theorem unrole_subset {a b : List RPos} (h : a ⊆ b) : unrole a ⊆ unrole b := by
+  intro l hl; rw [mem_unrole] at hl ⊢; obtain ⟨r, hr⟩ := hl; exact ⟨r, h hr⟩
+
 end Ruschm
